@@ -449,12 +449,14 @@ func TestProp(t *testing.T) {
 	rep.Assume("the fake IdP answers exactly as scripted and logs every call with sequence numbers; a token counts as revoked at the IdP iff a revoke call for it was answered 200 or with Okta's 'invalid or expired' 400; from then on the harness scripts introspect => inactive and refresh => 400 for it")
 	rep.Assume("only the Okta provider (revokes the refresh token) can be mounted in NewAuthenticatorMux offline; Google's endpoints are hard-wired host names, so Google's Revoke (access token) is only driven directly against a plain test server for its error mapping (stream c19-google-revoke)")
 	rep.Assume("stream c19-concurrent: 2-3 simultaneous sign-out POSTs on one authenticator for harness-sealed sessions (same e-mail / JWT-like tokens with a long common prefix or suffix / unrelated / the very same session); the first revoke call is held open at the fake IdP until the others are in flight; each request is judged on its own token's revoke calls. Merging the calls of the SAME session is a don't-care")
+	rep.Assume("stream c19-proxy-request: the proxy's sign-out request is fuzzed (open-redirect style values in rd/redirect/redirect_uri/return_to/next/url/continue/state/ts/sig as query or POST form parameters, X-Forwarded-Host/Forwarded/X-Original-URL style headers, hostile request-targets, GET/POST/HEAD); the host the request is FOR is the Host header, or the authority of an absolute-form target (Go's server semantics); a client-chosen landing path on that same host is a don't-care")
 	rep.Assume("authenticator session time at sign-out: token-expired and lifetime-nearly-over sessions must be revoked like fresh ones (Okta revokes the refresh token, which does not lapse with the access token); lifetime-expired sessions and sessions with neither refresh token nor live access token are counted don't-cares; a session without refresh token but with a live access token must not be cleared without any revoke call at the IdP")
 	rep.Assume("virtual time: the saved proxy cookie is re-sealed with all deadlines moved into the past (11 min: validity lapsed; 65 min: access token lapsed); signature timestamps are crafted by the harness, >= 60 s away from the 5 minute edge")
 
 	only, skipHist := env.Only(stream)
 	onlyConc, skipConc := env.Only(streamConc)
-	if !skipHist || !skipConc {
+	onlyReq, skipReq := env.Only(streamReq)
+	if !skipHist || !skipConc || !skipReq {
 		w, err := newWorld()
 		if err != nil {
 			rep.Inconclusive("two-service stack did not start: " + err.Error())
@@ -474,6 +476,11 @@ func TestProp(t *testing.T) {
 				start := time.Now()
 				runConcurrent(w, rep, env, onlyConc)
 				rep.Extra("wall_concurrent_s", time.Since(start).Seconds())
+			}
+			if !skipReq {
+				start := time.Now()
+				runReqFuzz(w, rep, env, onlyReq)
+				rep.Extra("wall_proxy_request_fuzz_s", time.Since(start).Seconds())
 			}
 			if p := w.as.ErrLog.Panics() + w.px[0].ErrLog.Panics() + w.px[1].ErrLog.Panics(); p > 0 {
 				rep.Violate(stream, 0, "handler panic during sign-out histories", fmt.Sprintf("%d handler panics logged by the servers", p), nil)
